@@ -287,6 +287,35 @@ def run_case(ck, desc):
                 _still_unsimulated(ck, desc, fresh, "rejected schedule of another length")
             else:
                 ck.violation("schedule-length-mismatch-rejected", {"len_schedule": bad, "len_time": nt}, desc)
+        # wrong lengths whose surplus cells "say nothing" (blank cells a spreadsheet export leaves below a
+        # column, zeros, the last value repeated, masked entries): the length is what it is
+        import pandas as pd
+
+        pf_ = float(desc["p_f"])
+        fills = {"nan": np.nan, "zero": 0.0, "last value": pf_, "p_i": float(desc["p_i"]), "inf": np.inf}
+        variants = []
+        for k_ in (1, 3, nt):
+            for label, fv in fills.items():
+                variants.append((f"{nt}+{k_} cells, surplus tail = {label}", np.concatenate([np.full(nt, pf_), np.full(k_, fv)])))
+            variants.append((f"{nt}+{k_} cells, surplus head = nan", np.concatenate([np.full(k_, np.nan), np.full(nt, pf_)])))
+        variants.append((f"{nt}+2 cells as a Series with a blank tail", pd.Series(np.concatenate([np.full(nt, pf_), [np.nan, np.nan]]))))
+        variants.append((f"{nt}+2 cells as a masked array, tail masked", np.ma.masked_invalid(np.concatenate([np.full(nt, pf_), [np.nan, np.nan]]))))
+        if nt >= 3:
+            variants.append((f"{nt}-1 cells", np.full(nt - 1, pf_)))
+            variants.append((f"{nt} cells in 2 columns ({nt} x 2)", np.full((nt, 2), pf_)))
+        for label, sch in variants:
+            fresh, _, _, _, _ = sim.build(dict(desc, reused=False))
+            try:
+                with np.errstate(all="ignore"), warnings.catch_warnings():
+                    warnings.simplefilter("ignore")
+                    fresh.simulate(t.copy(), sch)
+            except Exception as e:  # noqa: BLE001
+                ck.count(f"wrong_length_rejected.{type(e).__name__}")
+                if label.endswith("tail = nan"):
+                    _still_unsimulated(ck, desc, fresh, "rejected schedule with a blank surplus tail")
+            else:
+                ck.violation("schedule-length-mismatch-rejected", {"schedule": label, "len_time": nt}, desc)
+        ck.count("wrong_length_schedules_with_silent_surplus", len(variants))
         # a simulate that fails for another reason (schedule of the right length far off the table)
         # has not simulated anything either
         fresh, _, _, _, _ = sim.build(dict(desc, reused=False))
